@@ -52,7 +52,10 @@ def r17_2(ctx: Ctx) -> None:
     ctx.ob("R17.2", FEATURE, func, "Feature.to_biopython", "qualifier keys sorted", bool(loops),
            "qualifiers are emitted in sorted key order", form="")
     func = ctx.fn(REC, "Record.to_biopython")
-    ok = any(isinstance(n, ast.For) and txt(n.iter) == "sorted(self.all_features)" for n in walk_local(func))
+    sorted_uses = [n for n in ast.walk(func) if isinstance(n, ast.Call) and txt(n) == "sorted(self.all_features)"]
+    raw_uses = [n for n in ast.walk(func) if isinstance(n, ast.Attribute) and txt(n) == "self.all_features"
+                and not any(n in list(ast.walk(u)) for u in sorted_uses)]
+    ok = bool(sorted_uses) and not raw_uses
     ctx.ob("R17.2", REC, func, "Record.to_biopython", "features sorted", ok, "features are written in sorted order", form="")
 
 
